@@ -3,11 +3,13 @@ package checks
 import (
 	"bytes"
 	"fmt"
+	"math/rand"
 	"reflect"
 	"runtime/debug"
 	"strings"
 
 	"free5gclib/aper"
+	"free5gclib/ngap"
 	"free5gclib/ngap/ngapType"
 
 	"vh/fw"
@@ -50,6 +52,14 @@ func libDecode(b []byte, ptr any, tag string) (err error, stack string) {
 	}()
 	// the decoder returns slices that alias its input and the encoder masks BIT STRING padding bits in place:
 	// every decode gets a private copy so that the oracle's own buffers stay intact
+	if p, isPDU := ptr.(*ngapType.NGAPPDU); isPDU && tag == pduTag {
+		// whole PDUs go through the library's entry point (ngap.go is part of what the property is anchored in)
+		got, err := ngap.Decoder(append([]byte(nil), b...))
+		if err == nil && got != nil {
+			*p = *got
+		}
+		return err, ""
+	}
 	return aper.UnmarshalWithParams(append([]byte(nil), b...), ptr, tag), ""
 }
 
@@ -60,6 +70,10 @@ func libEncode(v any, tag string) (b []byte, err error, stack string) {
 			stack = string(debug.Stack())
 		}
 	}()
+	if pdu, isPDU := v.(ngapType.NGAPPDU); isPDU && tag == pduTag {
+		b, err = ngap.Encoder(pdu)
+		return
+	}
 	b, err = aper.MarshalWithParams(v, tag)
 	return
 }
@@ -248,8 +262,11 @@ func runC04(c *fw.Case) (o fw.Outcome) {
 	case k == 8:
 		return c04Optionals(c)
 	default:
-		if (c.Idx/10)%25 == 24 {
+		switch j := (c.Idx / 10) % 50; {
+		case j == 24 || j == 49:
 			return c04Fragment(c)
+		case j%10 == 9 || j%10 == 4:
+			return c04AimedLength(c)
 		}
 		return c04Primitive(c)
 	}
@@ -284,6 +301,113 @@ func c04Fragment(c *fw.Case) (o fw.Outcome) {
 		roundTrip(&o, reflect.ValueOf(pdu), pduTag, fmt.Sprintf("DownlinkNASTransport(NAS-PDU %d octets)", n))
 	}
 	o.Count("fragmentation_round_trips", 1)
+	return
+}
+
+// c04AimedLength: a NAS transport message whose NAS-PDU is sized so that ONE of the nested length determinants (the
+// top-level value's, the IE value's, the OCTET STRING's own) is exactly hi*256+lo for every possible first octet of the
+// two-octet form (0x80..0xBF) and the one-octet form below it: the claim reaches "up to 16383 octets so that no length is
+// fragmented", and the last values before the fragmented form are where a hand-written length reader goes wrong.
+func c04AimedLength(c *fw.Case) (o fw.Outcome) {
+	r := c.R
+	j := c.Idx / 50
+	j -= j / 5 // every fifth slot belongs to the fragmentation family
+	hi := j % 65 // 64 = the one-octet form
+	level := (j / 65) % 3
+	var target int
+	switch lo := []int{0, 1, 255, 254, r.Intn(256), r.Intn(256)}[(j/195)%6]; {
+	case hi == 64:
+		target = 40 + r.Intn(88)
+	case hi == 0:
+		target = 128 + lo%128
+	default:
+		target = hi<<8 | lo
+	}
+	uplink := r.Intn(2) == 0
+	amf, ran := &ngapType.AMFUENGAPID{Value: r.Int63n(1 << 40)}, &ngapType.RANUENGAPID{Value: r.Int63n(1 << 32)}
+	build := func(n int) ngapType.NGAPPDU {
+		nas := &ngapType.NASPDU{Value: make([]byte, n)}
+		rand.New(rand.NewSource(c.Seed*1000003 + int64(c.Idx))).Read(nas.Value) // same content whatever n the search tries
+		var pdu ngapType.NGAPPDU
+		pdu.Present = 1
+		pdu.InitiatingMessage = &ngapType.InitiatingMessage{}
+		if uplink {
+			pdu.InitiatingMessage.ProcedureCode.Value = ngapType.ProcedureCodeUplinkNASTransport
+			pdu.InitiatingMessage.Value.Present = ngapType.InitiatingMessagePresentUplinkNASTransport
+			ul := &ngapType.UplinkNASTransport{}
+			pdu.InitiatingMessage.Value.UplinkNASTransport = ul
+			for _, id := range []int64{ngapType.ProtocolIEIDAMFUENGAPID, ngapType.ProtocolIEIDRANUENGAPID, ngapType.ProtocolIEIDNASPDU} {
+				ie := ngapType.UplinkNASTransportIEs{}
+				ie.Id.Value = id
+				switch id {
+				case ngapType.ProtocolIEIDAMFUENGAPID:
+					ie.Value.Present, ie.Value.AMFUENGAPID = ngapType.UplinkNASTransportIEsPresentAMFUENGAPID, amf
+				case ngapType.ProtocolIEIDRANUENGAPID:
+					ie.Value.Present, ie.Value.RANUENGAPID = ngapType.UplinkNASTransportIEsPresentRANUENGAPID, ran
+				default:
+					ie.Value.Present, ie.Value.NASPDU = ngapType.UplinkNASTransportIEsPresentNASPDU, nas
+				}
+				ul.ProtocolIEs.List = append(ul.ProtocolIEs.List, ie)
+			}
+			return pdu
+		}
+		pdu.InitiatingMessage.ProcedureCode.Value = ngapType.ProcedureCodeDownlinkNASTransport
+		pdu.InitiatingMessage.Value.Present = ngapType.InitiatingMessagePresentDownlinkNASTransport
+		dl := &ngapType.DownlinkNASTransport{}
+		pdu.InitiatingMessage.Value.DownlinkNASTransport = dl
+		for _, id := range []int64{ngapType.ProtocolIEIDAMFUENGAPID, ngapType.ProtocolIEIDRANUENGAPID, ngapType.ProtocolIEIDNASPDU} {
+			ie := ngapType.DownlinkNASTransportIEs{}
+			ie.Id.Value = id
+			switch id {
+			case ngapType.ProtocolIEIDAMFUENGAPID:
+				ie.Value.Present, ie.Value.AMFUENGAPID = ngapType.DownlinkNASTransportIEsPresentAMFUENGAPID, amf
+			case ngapType.ProtocolIEIDRANUENGAPID:
+				ie.Value.Present, ie.Value.RANUENGAPID = ngapType.DownlinkNASTransportIEsPresentRANUENGAPID, ran
+			default:
+				ie.Value.Present, ie.Value.NASPDU = ngapType.DownlinkNASTransportIEsPresentNASPDU, nas
+			}
+			dl.ProtocolIEs.List = append(dl.ProtocolIEs.List, ie)
+		}
+		return pdu
+	}
+	n := target
+	switch level {
+	case 1: // the IE value (an open type holding the OCTET STRING with its own determinant)
+		n = target - 2
+		if n < 128 {
+			n = target - 1
+		}
+	case 0: // the top-level value: search, the ids' widths vary
+		n = target - 30
+		for try := 0; try < 6; try++ {
+			if n < 0 {
+				n = 0
+			}
+			canon, err := per.Marshal(build(n), pduTag)
+			if err != nil {
+				o.Inconcl("reference refused the aimed message: %v", err)
+				return
+			}
+			got, _, ok := readLenDet(canon, 3)
+			if !ok || got == target {
+				break
+			}
+			n += target - got
+		}
+	}
+	if n < 0 {
+		n = 0
+	}
+	what := []string{"top-level-value", "ie-value", "octet-string"}[level]
+	o.Tag("aimed-length", "aimed-length:"+what, fmt.Sprintf("aimed-first-octet=%02x", 0x80|hi&0x3f))
+	if hi == 64 {
+		o.Tag("aimed-length:one-octet-form")
+	}
+	o.Input = fmt.Sprintf("NAS transport (uplink=%v) with a NAS-PDU of %d octets: length of the %s aimed at %d (determinant %x)", uplink, n, what, target, putLenDet(target))
+	o.Digest, o.Nontrivial = fw.HashS("aimed", what, fmt.Sprint(target), fmt.Sprint(uplink)), true
+	canon := roundTrip(&o, reflect.ValueOf(build(n)), pduTag, fmt.Sprintf("NASTransport(%s length %d)", what, target))
+	o.Count("aimed_length_round_trips", 1)
+	o.Max("largest_encoding_octets", int64(len(canon)))
 	return
 }
 
